@@ -3,6 +3,8 @@
 OUT=${MATRIX_OUT:-/tmp/matrix.txt}; : > $OUT
 for d in /verif/seeded/${MATRIX_GLOB:-*_m?}/; do
   n=$(basename $d)
+  # changes that later repository fixes made harmless (meta.json status) are listed, not run
+  if grep -q '"status": "harmless-on-HEAD"' $d/meta.json 2>/dev/null; then echo "== $n" >> $OUT; echo "SKIPPED harmless-on-HEAD" >> $OUT; continue; fi
   echo "== $n" >> $OUT
   /verif/tools/scratch_check.sh mx$n $d/patch.diff HEAD C03 C04 C05 C06 C10 C11 C13 C14 C15 2>&1 | grep -E "quick:|key=" | cut -c1-260 >> $OUT
 done
